@@ -177,6 +177,32 @@ func ruleRemFlag(w *World, r *Report) {
 	})
 	key := "fn=" + fname(fn)
 	if remCall == nil {
+		// the removal moved into a helper of the location (a gated RemRule in front of an ungated remRule): decide there
+		var helper *ssa.Function
+		allInstrs(fn, func(in ssa.Instruction) {
+			c := callOf(in)
+			if c == nil || c.StaticCallee() == nil || helper != nil || c.StaticCallee() == fn {
+				return
+			}
+			g := c.StaticCallee()
+			if g.Signature.Recv() == nil || len(g.Blocks) == 0 {
+				return
+			}
+			if rn := namedOf(g.Signature.Recv().Type()); rn == nil || rn.Obj().Name() != "Location" {
+				return
+			}
+			allInstrs(g, func(x ssa.Instruction) {
+				if _, ok := a.stateCall(x, map[string]bool{"Rem": true}); ok && remCall == nil {
+					remCall = x
+					helper = g
+				}
+			})
+		})
+		if helper != nil {
+			fn = helper
+		}
+	}
+	if remCall == nil {
 		r.violation("REM-FLAG", key, w.Pos(fn.Pos()), "RemRule no longer calls State.Rem")
 		return
 	}
